@@ -46,6 +46,8 @@ CORE_TPL = ["Model/Base.v", "Model/Templates.v", "Model/TdTemplates.v", "Model/T
 
 def _c04(v, b, tier):
     tpl_checks.check_c04(v, b.t1_summary, 70 * SIZES[tier], 6)
+    hooks_checks.check_hooks(v, b.t1_summary)
+    conv_checks.check_conv(v, "C04", b.t1_summary, 30 * SIZES[tier])
 
 
 def _c09(v, b, tier):
@@ -143,7 +145,8 @@ REGISTRY = {
                     "in a list, inside an attrs class and inside a dataclass, for every format; non-trivial = composite type or class, and every hook check; distinct = sha1 of "
                     "(world, format, type, value)"},
     "C02": {"props_file": "Props/C02.v", "files": CORE_CONV + ["Proofs/ConvSound.v", "Proofs/ConvCfg.v", "Props/C02.v"], "run": _conv("C02", 40), "rule": RULE_CONV, "t1_sections": T1_CONV},
-    "C04": {"props_file": "Props/C04.v", "files": CORE_TPL + ["Model/Conv.v", "Proofs/UnstructProofs.v", "Proofs/ClassSound.v", "Proofs/ClassRoundtrip.v", "Proofs/ConvAgree.v", "Proofs/ConvCfg.v", "Props/C04.v"], "run": _c04, "rule": RULE_TPL, "t1_sections": ["gen"]},
+    "C04": {"props_file": "Props/C04.v", "files": CORE_TPL + ["Model/Conv.v", "Proofs/UnstructProofs.v", "Proofs/ClassSound.v", "Proofs/ClassRoundtrip.v", "Proofs/ConvAgree.v", "Proofs/ConvCfg.v", "Props/C04.v"], "run": _c04,
+            "rule": RULE_TPL + " ; PLUS the CONV worlds (see C01) extended with Counter / defaultdict / deque and TypedDict positions (oracle only): every structure call is repeated on the same converter class and options with the other validation mode", "t1_sections": ["gen", "converters", "hooks"]},
     "C09": {"props_file": "Props/C09.v", "files": CORE_TPL + ["Proofs/UnstructProofs.v", "Props/C09.v"], "run": _c09, "rule": RULE_TPL, "t1_sections": ["gen"]},
     "C20": {"props_file": "Props/C20.v", "files": ["Model/Base.v", "Model/FieldConv.v", "Props/C20.v"], "run": _c20, "t1_sections": [],
             "rule": "exhaustive enumeration of the decision domain {converter?} x {prefer_attrib_converters} x {untyped, hook found, hook not found, hook found but "
